@@ -43,7 +43,8 @@ type gatePacer struct {
 	mu         sync.Mutex
 	pending    *paceCall
 	n          int
-	auto       int // the first auto calls are answered (0,false) at once: a burst of ticks the controller does not pace
+	auto       int // the first auto calls are answered (autoWait,false) at once: a burst of ticks the controller does not pace
+	autoWait   time.Duration
 	concurrent bool // two Pace calls overlapped
 	records    []paceRecord
 }
@@ -56,9 +57,9 @@ func (g *gatePacer) Pace(elapsed time.Duration, hits uint64) (time.Duration, boo
 	c := &paceCall{Index: g.n, Elapsed: elapsed, Hits: hits, decide: make(chan paceDecision)}
 	g.n++
 	if c.Index < g.auto {
-		g.records = append(g.records, paceRecord{c.Index, elapsed, hits, 0, false})
+		g.records = append(g.records, paceRecord{c.Index, elapsed, hits, g.autoWait, false})
 		g.mu.Unlock()
-		return 0, false
+		return g.autoWait, false
 	}
 	g.pending = c
 	g.mu.Unlock()
